@@ -825,6 +825,33 @@ class Interp:
                 return raw(b.deps, deg={})
             if name in ("explain", "to_json", "plot", "calculus_graph_to_file"):
                 return raw(deg={})
+            # a method of the explainable classes the frozen summaries do not know (a new helper such as
+            # `to_full_hours`): interpret its body with `self` bound to the receiver — it is made of known operations
+            outs = []
+            for ecls in ("ExplainableQuantity", "ExplainableHourlyQuantities", "EmptyExplainableObject"):
+                if ecls not in self.pm.classes:
+                    continue
+                kinds = {"ExplainableQuantity": "EQ", "ExplainableHourlyQuantities": "EHQ", "EmptyExplainableObject": "EMPTY"}
+                if b.ek and kinds[ecls] not in b.ek and "?" not in b.ek:
+                    continue
+                owner, m = self.pm.find_method(ecls, name)
+                if m is None or is_property(m):
+                    continue
+                key = ("<emethod>", ecls, name)
+                if key in cx.stack or len(cx.stack) > MAX_DEPTH:
+                    continue
+                cx.stack.append(key)
+                cx.fn.append((self.pm.classes[owner].path, f"{owner}.{name}"))
+                env2 = self.bind_params(m, args, kw, 1, cx)
+                env2[m.args.args[0].arg] = b
+                saved_ctl, saved_taint = len(cx.ctl), len(cx.taint)
+                outs.append(self.run_fn(m.body, env2, cx))
+                del cx.ctl[saved_ctl:]
+                del cx.taint[saved_taint:]
+                cx.fn.pop()
+                cx.stack.pop()
+            if outs:
+                return join(outs)
             cx.unknown.append(f"call of unknown explainable method .{name}() in {where[1]}")
             return raw(b.deps | alld, deg=d_nl(b.deg))
         if b.k == "raw":
